@@ -823,6 +823,16 @@ func (env *Env) call(x ECall) TV {
 			Forall([]Binder{{jn, SInt}}, Implies(And(P, Le(IntLit(0), j), Lt(j, la.T)),
 				And(Le(IntLit(0), gj), Lt(gj, la.T), Eq(aAt(gj), bAt(j)), Eq(App(fn, SInt, gj), j))), []*Term{bAt(j)}))
 		return TV{T: P, Ty: boolT}
+	case "ghost":
+		// ghost(p): the ghost integer cell attached to object p (written only through contracts)
+		if len(x.Args) != 1 {
+			cfail("ghost(obj)")
+		}
+		v := env.comp(x.Args[0])
+		if v.T == nil || v.T.Sort != SInt {
+			cfail("ghost: not an object reference")
+		}
+		return TV{T: Select(env.curHeap("GH:int"), v.T), Ty: intT}
 	case "byteat":
 		// byteat(a, k): the byte at absolute position k of string storage a (s[i] is byteat(arr(s), off(s)+i))
 		if len(x.Args) != 2 {
